@@ -661,6 +661,7 @@ def r3_r4_from_angles(ck, prog, run):
     # R4 flag of the result: real/imaginary is a property of the RESULT (i^a * i^b), also when the result is written into a Phase the
     # caller supplies (in-place operators, out=) whose own flag was the other one
     n_fl = 0
+    result_flags = {}
     for a in (False, True):
         for b in (False, True):
             for given in (None, False, True):
@@ -691,10 +692,38 @@ def r3_r4_from_angles(ck, prog, run):
                     continue
                 n_fl += 1
                 flag = res.attrs.get("imaginary") if isinstance(res, ObjV) else None
+                if given is None and isinstance(flag, BoolV):
+                    result_flags[(a, b)] = flag
                 ok = isinstance(flag, BoolV) and flag.b == (a != b) and (target is None or res is target)
                 ck.same("R4", fa.where, tag, "the result carries the flag of i^a * i^b, and a supplied output object is the one that is returned and re-flagged",
                         ok, found=f"flag {flag!r}" + ("" if target is None or res is target else "; another object returned"), nontrivial=True)
     run.floor("R4", "result-flag cases decided", n_fl, 12)
+    # ... and that flag is what the NEXT operation tests (by ==, by `is`, by truth value): a real Phase that came out of imaginary * imaginary
+    # must combine with any other real Phase part-wise.  The flag object from_angles really stores (a Python bool or a numpy.bool_) is put
+    # on a model Phase and sent through the add/subtract dispatch.
+    for (a_, b_), flag_ in sorted(result_flags.items()):
+        if a_ != b_ or not a_:
+            continue
+        for name in ("add", "subtract"):
+            prod = make_phase(prog, "prod", False)
+            prod.attrs["imaginary"] = flag_
+            q_ = make_phase(prog, "q")
+            tag = f"np.{name}(imaginary Phase * imaginary factor, real Phase)"
+            try:
+                res2, events2, calls2, ev2 = run_uf(prog, name, [prod, q_], 0)
+            except Raised as e:
+                ck.same("R4", prog.func("Phase.__array_ufunc__").where, tag, "two real Phases are added part-wise", False, found=str(e)[:160], nontrivial=True)
+                continue
+            except (Unsupported, DimensionError) as e:
+                ck.unk("R4", prog.func("Phase.__array_ufunc__").where, tag, "evaluates", str(e)[:200])
+                continue
+            fa2 = [e_[1] for e_ in events2 if e_[0] == "from_angles"]
+            fell = [t for t in ev2.trace if t[0] == "fallback"]
+            ck.same("R4", prog.func("Phase.__array_ufunc__").where, tag,
+                    "a real Phase that is the product of imaginary operands combines with a real Phase part-wise (from_angles), never through the single-double fallback",
+                    bool(fa2) and not fell and isinstance(res2, ObjV),
+                    found=f"{len(fa2)} from_angles calls, {len(fell)} fallbacks; the product's flag is {flag_!r}{' (a numpy.bool_, not the singleton False)' if getattr(flag_, 'np', False) else ''}",
+                    nontrivial=True)
     # mixed parts are refused
     try:
         capture([Num(P1 * CYCLE, kind="quantity", unit=CYCLE, dtype=ExtV("numpy.float64")),
